@@ -84,6 +84,7 @@ class Interp:
         self.call_stack: List[CallCtx] = []
         self.notes: List[str] = []
         self.events: List[tuple] = []   # generic event log for property modules
+        self.ge1_atoms: set = set()     # atoms assumed to be integers >= 1 (declared by the property module)
         from . import transfer
         self.transfer = transfer
 
@@ -155,7 +156,7 @@ class Interp:
         self.functions_entered.append(fi)
         is_gen = any(isinstance(n, (ast.Yield, ast.YieldFrom)) for n in _walk_no_nested(fnode))
         if is_gen:
-            cc.yields = ListV(kind="gen")
+            cc.yields = self.new_list(kind="gen")
         self.depth += 1
         self.call_stack.append(cc)
         frames_at_entry = len(self.frames)
@@ -367,9 +368,22 @@ class Interp:
             self.raises.append(("ValueError", self.guards(), f"{self.where()}: unpack {len(v.items)} into {n}"))
             return [Top("unpack arity")] * n
         if isinstance(v, ListV):
-            fl = flat_elems(v.items)
+            ex = expand_const_loops(v.items)
+            fl = flat_elems(ex)
             if fl is not None and len(fl) == n:
                 return fl
+            # n guarded single elements unpacked into n names: reaching the next statement implies every guard held
+            if len(ex) == n and all(isinstance(g, Guard) and len(g.items) == 1 and isinstance(g.items[0], Elem) for g in ex):
+                if self._len_guarded(v, n):
+                    self.events.append(("unpack_implies", tuple(g.cond for g in ex), self.where(), tuple(self.frames)))
+                    return [g.items[0].value for g in ex]
+                self.events.append(("unpack_unguarded", tuple(g.cond for g in ex), self.where(), stmt))
+                self.raises.append(("ValueError", self.guards(), f"{self.where()}: unpacking a filtered sequence of at most "
+                                                                 f"{n} elements into {n} names without a length check"))
+                return [Top("unpack of a filtered sequence without a dominating length check")] * n
+            if fl is not None:
+                self.raises.append(("ValueError", self.guards(), f"{self.where()}: unpack {len(fl)} values into {n}"))
+                return [Top("unpack arity")] * n
             if v.kind == "gen" or fl is None:
                 return [Term("unpack", [v, Num(k)]) for k in range(n)]
         if isinstance(v, Grid) and v.ndim >= 1:
@@ -379,6 +393,21 @@ class Interp:
         if isinstance(v, Top):
             return [Top(v.reason)] * n
         return [Top(f"unpack of {type(v).__name__}")] * n
+
+    def _len_guarded(self, lst: ListV, n: int) -> bool:
+        """is there an enclosing guard that is false for len(lst) = n-1 and true for len(lst) = n ?"""
+        atom = ("app", "len", Poly.atom(("sym", f"list#{lst.uid}")))
+        for fr in self.frames:
+            if fr.kind != "guard":
+                continue
+            c = fr.cond
+            if atom not in atoms_of(c):
+                continue
+            lo = self.decide(subst(c, {atom: Poly.const(n - 1)}))
+            hi = self.decide(subst(c, {atom: Poly.const(n)}))
+            if lo is False and hi is True:
+                return True
+        return False
 
     # ---- control flow
     def st_If(self, s, cc):
@@ -543,7 +572,8 @@ class Interp:
             if len(it.items) == 1 and isinstance(it.items[0], Loop) and len(it.items[0].items) == 1 and \
                     isinstance(it.items[0].items[0], Elem):
                 lp = it.items[0]
-                return lp.extent, (lambda i, lp=lp: subst(lp.items[0].value, {lp.idx: i})), ("list", it)
+                return lp.extent, (lambda i, lp=lp: subst(lp.items[0].value, {lp.idx: i})), \
+                    (lp.info if isinstance(lp.info, tuple) and lp.info and lp.info[0] == "range" else ("list", it))
             fl = flat_elems(it.items)
             if fl is not None and len(fl) >= 0:
                 return Poly.const(len(fl)), None, ("literal", fl)
@@ -561,6 +591,20 @@ class Interp:
         return None
 
     def run_loop(self, target, it, body, cc, node):
+        if isinstance(it, ListV) and not _simple_list(it) and flat_elems(it.items) is None:
+            # iterate structurally over the skeleton (loops / guards of the producer are re-entered)
+            assigned = _assigned_names(body)
+            for n in assigned:
+                if n in cc.env and isinstance(cc.env[n], Num):
+                    cc.env[n] = Top(f"variable {n} carried through a loop over a structured list")
+
+            def body_fn():
+                try:
+                    self.exec_block(body, cc)
+                except _BranchExit:
+                    pass
+            self._map_skeleton(it.items, target, body_fn, cc, None)
+            return
         desc = self.iter_desc(it)
         if desc is None:
             reason = top_reason(it) if is_top(it) else f"iteration over {vstr(it)[:80]}"
@@ -1368,7 +1412,11 @@ class Interp:
                 finally:
                     self.frames.pop()
             elif isinstance(it, Splice):
-                self.list_container(out).append(Splice(Term("map_over", [it.value])))
+                if out is not None:
+                    self.list_container(out).append(Splice(Term("map_over", [it.value])))
+                else:
+                    self.note(f"loop over list with unknown splice in {self.where()}")
+                    self.events.append(("loop_over_splice", it.value, self.where()))
 
     # ------------------------------------------------------------------ arithmetic
     def map_num(self, v, fn, opname):
@@ -1455,6 +1503,26 @@ class Interp:
 
 class _BranchExit(Exception):
     pass
+
+
+def expand_const_loops(items, limit=8):
+    """unroll loops with a small constant extent whose body is a flat element list"""
+    out = []
+    for it in items:
+        if isinstance(it, Loop) and it.extent.is_const() and it.extent.as_const().denominator == 1 and \
+                0 <= it.extent.as_const() <= limit:
+            inner = expand_const_loops(it.items, limit)
+            if all(isinstance(e, Elem) or (isinstance(e, Guard) and flat_elems(e.items) is not None) for e in inner):
+                for k in range(int(it.extent.as_const())):
+                    for e in inner:
+                        if isinstance(e, Elem):
+                            out.append(Elem(subst(e.value, {it.idx: Poly.const(k)})))
+                        else:
+                            out.append(Guard(subst(e.cond, {it.idx: Poly.const(k)}),
+                                             [Elem(subst(x.value, {it.idx: Poly.const(k)})) for x in e.items], e.fid))
+                continue
+        out.append(it)
+    return out
 
 
 def _is_unit(dim):
